@@ -122,21 +122,59 @@ def step(x, p):
             Or(new_entry, len(f._name_map) == nent))
 
 
+def sdict_factories(x, w):
+    """In symbolic mode give every name factory of the writer a map that
+    compares symbolic keys by equality (a real dict would hash them)."""
+    if x.symbolic:
+        for attr, val in list(vars(w).items()):
+            if isinstance(val, lua.MinifyNameFactory):
+                val._name_map = rt.SDict()
+
+
 def label(x, p):
-    """Labels and gotos are renamed through the same map."""
+    """Labels and gotos are renamed through the same map as names."""
     nm = x.bytes('nm', p['L'], 97, 122)
-    toks = [lexer.TokLabel(b'::' + nm + b'::'), lexer.TokNewline(b'\n'),
+    other = x.bytes('other', 1, 97, 122)
+    x.assume(Not(other == nm[:1]) if p['L'] == 1 else True)
+    toks = [lexer.TokName(other), lexer.TokSymbol(b'='),
+            lexer.TokNumber(b'1'), lexer.TokNewline(b'\n'),
+            lexer.TokLabel(b'::' + nm + b'::'), lexer.TokNewline(b'\n'),
             lexer.TokKeyword(b'goto'), lexer.TokSpace(b' '),
             lexer.TokName(nm), lexer.TokNewline(b'\n')]
     w = lua.LuaMinifyTokenWriter(tokens=toks, root=None, args={})
-    if x.symbolic:
-        # same factory, map with symbolic keys (a real dict would hash them)
-        w._name_factory._name_map = rt.SDict()
+    sdict_factories(x, w)
     out = b''.join(w.to_lines())
     x.out('out', out)
     short = w._name_factory.get_short_name(nm)
+    first = w._name_factory.get_short_name(other)
     x.check('label and goto carry the same renamed identifier',
-            out == b'::' + short + b'::\ngoto ' + short + b'\n')
+            out == first + b'=1\n::' + short + b'::\ngoto ' + short + b'\n')
+    x.check('two different identifiers stay different',
+            Or(other == nm, Not(first == short)))
+
+
+def keepfile(x, p):
+    """read_names_file: one name per line, blank lines and lines whose first
+    non-blank character is '#' ignored, surrounding blanks stripped."""
+    import builtins
+    lead = x.bytes('lead', 1)
+    trail = x.bytes('trail', 1)
+    for c in (lead[0], trail[0]):
+        x.assume(Or(c == 32, c == 9))
+    nl = x.choice('nl', [b'\n', b'\r\n'])
+    content = (lead + b'foo' + trail + nl + b'# bar' + nl + nl + b'  #baz' +
+               nl + b'qux' + nl + b'a#b')
+    hx.patch(x, builtins, 'open',
+             lambda name, mode='r', *a, **k: hx.MemStream(content))
+    try:
+        names = F.read_names_file('/w/keep.txt')
+    except Exception as e:
+        x.check('keep file is read', False, info=repr(e))
+        return
+    got = sorted(bytes(n) if not isinstance(n, bytes) else n for n in names)
+    x.out('names', got)
+    x.check('exactly the listed names, stripped, comments and blank lines '
+            'ignored', got == [b'a#b', b'foo', b'qux'])
 
 
 Q = {'_budget': 300}
@@ -152,5 +190,7 @@ HARNESSES = [
                       dict(Q, mode='keep_file', entries=2, L=2, nkeep=2,
                            B=20000, _budget=1800),
                       dict(Q, mode='keep_all', entries=2, L=3, B=20000)]),
-    Harness('label', label, quick=[dict(Q, L=2)], thorough=[dict(Q, L=3)]),
+    Harness('label', label, quick=[dict(Q, L=1), dict(Q, L=2)],
+            thorough=[dict(Q, L=3)]),
+    Harness('keepfile', keepfile, quick=[Q]),
 ]
